@@ -3,6 +3,7 @@ package harness
 // Generators shared by all properties.  Every random choice is a rapid draw.
 
 import (
+	"bytes"
 	"crypto/cipher"
 	"fmt"
 	"math/big"
@@ -268,6 +269,30 @@ func shortCoordMultipliers(gi *GroupInfo) []int {
 	}
 	shortCoordTab[gi.Name] = ks
 	return ks
+}
+
+// guard returns a copy of b that sits at the start of a larger array (spare capacity filled with a
+// canary pattern) and a function telling whether the callee wrote into the caller's memory: into the
+// bytes themselves or, through an append onto the slice, into the spare capacity behind them.
+func guard(b []byte) ([]byte, func() string) {
+	const tail = 96
+	buf := make([]byte, len(b)+tail)
+	copy(buf, b)
+	for i := len(b); i < len(buf); i++ {
+		buf[i] = 0xc5
+	}
+	orig := append([]byte(nil), b...)
+	return buf[:len(b):len(buf)], func() string {
+		if !bytes.Equal(buf[:len(b)], orig) {
+			return fmt.Sprintf("the input slice was modified: %x -> %x", orig, buf[:len(b)])
+		}
+		for i := len(b); i < len(buf); i++ {
+			if buf[i] != 0xc5 {
+				return fmt.Sprintf("byte %d behind the input slice (its spare capacity) was overwritten: %x", i-len(b), buf[len(b):min(len(buf), i+33)])
+			}
+		}
+		return ""
+	}
 }
 
 // newPoint: a fresh receiver of gi; for the AllowVarTime instance the RECEIVER carries the flag
